@@ -1693,5 +1693,6 @@ pub fn sites(fx: &Fixture, parts: &mut Parts, tier: Tier) -> Vec<SiteGroup> {
             }
         }
     }
+    all.extend(crate::coord::coordinated(fx, parts, tier));
     all
 }
